@@ -120,7 +120,8 @@ pub fn is_vint(val: u64) -> bool {
         return false;
     }
 
-    (val.ilog2() % 7) == 0
+    let log = val.ilog2();
+    log > 0 && log <= 56 && (log % 7) == 0
 }
 
 ///
